@@ -6,7 +6,9 @@ import (
 	"os"
 	"path/filepath"
 	"strings"
+	"sync/atomic"
 	"syscall"
+	"time"
 
 	wt "github.com/hnakamur/whispertool"
 )
@@ -199,5 +201,49 @@ func init() {
 			return
 		}
 		s.obs("recreate ok size=%d", st.Size())
+	})
+}
+
+func init() {
+	// lockcreate NAME : the handle returned by Create (default options) holds the file like any other
+	// handle: a second Open waits until it is closed
+	register("lockcreate", func(s *sess, tk []string) {
+		f := s.file(tk[1])
+		os.Remove(f.path)
+		a, err := wt.Create(f.path, wt.ArchiveInfoList{wt.NewArchiveInfo(1, 20), wt.NewArchiveInfo(5, 10)}, wt.Sum, 0.5)
+		if err != nil {
+			s.obs("lockcreate createerr")
+			return
+		}
+		must(a.Sync())
+		acquired := make(chan error, 1)
+		got := int32(0)
+		go func() {
+			b, err := wt.Open(f.path)
+			atomic.StoreInt32(&got, 1)
+			if err == nil {
+				b.Close()
+			}
+			acquired <- err
+		}()
+		time.Sleep(150 * time.Millisecond)
+		blocked := atomic.LoadInt32(&got) == 0
+		a.Close()
+		ok := false
+		select {
+		case err := <-acquired:
+			ok = err == nil
+		case <-time.After(5 * time.Second):
+		}
+		s.obs("lockcreate blocked=%v acquired=%v", blocked, ok)
+	})
+	// symlink TARGET LINK : LINK (a name in the case directory) becomes a symbolic link to the file TARGET
+	register("symlink", func(s *sess, tk []string) {
+		t, l := s.file(tk[1]), s.file(tk[2])
+		os.Remove(l.path)
+		rel, err := filepath.Rel(filepath.Dir(l.path), t.path)
+		must(err)
+		must(os.Symlink(rel, l.path))
+		s.obs("symlink ok")
 	})
 }
